@@ -37,6 +37,8 @@ import (
 
 type c05Env struct {
 	mux     *larking.Mux
+	muxBig  *larking.Mux // the default options
+	muxSend *larking.Mux // MaxSendMessageSizeOption(48): a limit on reply messages, not on error reports
 	lb      *loopback
 	code    uint32
 	msg     string
@@ -103,6 +105,11 @@ func c05Setup() *c05Env {
 	if err != nil {
 		panic(err)
 	}
+	e.muxBig = e.mux
+	e.muxSend, err = dynMux([]protoreflect.FileDescriptor{fd}, impl, larking.MaxSendMessageSizeOption(48))
+	if err != nil {
+		panic(err)
+	}
 	c05env = e
 	return e
 }
@@ -135,7 +142,14 @@ func c05Run(o *out, input string) {
 	path := "/c05/unary"
 	full := "/verif.c05.Esvc/Unary"
 	// "+<n>" after the shape: the request names a media type no codec is registered under
-	shape, ctv, _ := strings.Cut(f[6], "+")
+	// "~s" after the shape: the mux with a small MaxSendMessageSize (in-process protocols only)
+	shapeAll, small := strings.CutSuffix(f[6], "~s")
+	e.mux = e.muxBig
+	if small {
+		e.mux = e.muxSend
+	}
+	defer func() { e.mux = e.muxBig }()
+	shape, ctv, _ := strings.Cut(shapeAll, "+")
 	reqCT := map[string]string{"": "", "1": "text/plain; charset=utf-8", "2": "image/jpeg", "3": "application/json; charset=utf-8"}[ctv]
 	if k >= 0 && (proto_ == "ws" || shape == "stream") {
 		path, full = "/c05/stream", "/verif.c05.Esvc/Stream"
@@ -388,6 +402,10 @@ func c05Gen(o *out, r *rng, tier string) {
 		for _, c := range codesList {
 			emit(p, c, "msg", false, 0, "unary")
 			emit(p, c, "with details", true, 0, "unary")
+			if (p == "http-json" || p == "http-proto" || p == "twirp") && c != 0 {
+				// an error report is not a reply message: the send limit does not apply to it
+				emit(p, c, strings.Repeat("long message ", 20), c%2 == 1, 0, "unary~s")
+			}
 			if p == "http-json" && c != 0 { // (a success reply under a media type without a codec is C04's business)
 				emit(p, c, "msg", c%2 == 0, 0, fmt.Sprintf("unary+%d", 1+c%3))
 			}
